@@ -14,6 +14,13 @@ handler; task bodies submit again, so nesting is unbounded; submissions before `
 only when the eventfd counter is positive or the pipe is readable, so "never waits for the poll timeout" is the
 safety property "never asleep in `poll` with work queued and nobody about to write the eventfd".
 
+`loop()` may be entered again after it has returned (`quit_` is re-armed on the way out): in the model the owner's
+program continues with further segments (`again`), each run outside `loop()` like the part before the first call, each
+followed by another call of `loop()`.  A **run** is the stretch from one `loop:entry` to the next `returned`.  The queue,
+`appendOrder` / `executed` and the eventfd belong to the loop object and go on across runs, so `once_fifo`,
+`executed_prefix`, `no_lost_wakeup`, `prompt` … are statements about the whole life of the loop; `quitMark` / `retMark`
+(`drain_on_exit`) speak about the run that has just ended.
+
 Functors are objects: what a functor owns dies with it, on the loop thread, and that destructor is user code which may
 submit again (`dtbl t` = what the destruction of task `t`'s functor object does).  The functor objects of a batch die
 after the whole batch has run, in vector order, **before `callingPendingFunctors_` is reset** (`functors.clear()`;
@@ -101,7 +108,7 @@ theorem nested_queue_appends_last (s : St) (x : TaskId) (r : List Sub) (rest : L
 
 /-- task bodies start on the loop thread only -/
 theorem only_on_loop_thread (s : St) (h : Reachable s) : s.wrongThread = false :=
-  reachable_invariant (P := fun s => s.wrongThread = false) (fun _ _ _ _ _ _ => rfl) (fun _ k h => step_wrongThread k h) h
+  reachable_invariant (P := fun s => s.wrongThread = false) (fun _ _ _ _ _ _ _ => rfl) (fun _ k h => step_wrongThread k h) h
 
 /-- **inline_first**: `runInLoop` called on the loop thread (from a functor, an I/O handler, before `loop()`) starts
 the task inside the call — it is the very next action, ahead of everything queued, and the queue is not touched; the
@@ -220,7 +227,7 @@ something whose destructor queues task 2.  With the flag reset first, that `queu
 **no thread able to move** (in the real code: until an unrelated event or the 10 s poll timeout).  The code as it is
 writes the eventfd and runs both. -/
 theorem batch_destroyed_after_reset_strands_witness :
-    let i := init false false (fun _ => []) (fun t => if t = 1 then [.queue 2] else []) [.queue 1] (fun _ => [])
+    let i := init false false (fun _ => []) (fun t => if t = 1 then [.queue 2] else []) [.queue 1] [] (fun _ => [])
     let sched := List.replicate 30 0
     ((runBD false i sched).phase = .polling ∧ (runBD false i sched).pending = [2] ∧
       (runBD false i sched).executed = [1] ∧ (runBD false i sched).ev = 0 ∧
@@ -242,6 +249,45 @@ theorem batch_destroyed_after_reset_strands_witness :
   split
   · exact k5
   · simp [otherEnabled, hthr k]
+
+/-! ## `loop()` entered again -/
+
+/-- **queued_between_runs_is_woken**: a functor that is queued while `loop()` is not running — after it has returned
+(`returned`: by a foreign thread behind the last test of the queue) or while the owner executes the segment that
+precedes the next call (`pre`: by the owner itself or by a foreign thread) — is accompanied by a pending or imminent
+wake-up: the eventfd is readable, or the submitter stands between its append and its `wakeup()`.  So the first `poll` of
+the next run returns at once (`no_lost_wakeup` is the same statement inside that run). -/
+theorem queued_between_runs_is_woken (s : St) (h : Reachable s) (hp : s.phase = .returned ∨ s.phase = .pre)
+    (hq : s.pending ≠ []) :
+    0 < s.ev ∨ s.lpc = .appended ∨ ∃ j, j ≠ s.L ∧ (s.thr j).pc = .appended := by
+  have hw := reachable_invariant (P := WakeInv) init_wake (fun _ k h => step_wake k h) h
+  exact hw.woken (by rcases hp with h | h <;> simp [h, needsWake]) hq
+
+/-- why, for the owner's own calls: between two runs `looping_` is false (it is cleared when `loop()` returns), so the
+wake-up test of a `queueInLoop` made by the owner thread there succeeds — the step after the append writes the eventfd -/
+theorem owner_queue_between_runs_wakes (s : St) (h : Reachable s) (hp : s.phase = .pre) (hl : s.lpc = .appended) :
+    s.looping = false ∧ (stepLoop s).out = some .wakeup ∧ 0 < (stepLoop s).ev ∧ (stepLoop s).pending = s.pending := by
+  have hw := reachable_invariant (P := WakeInv) init_wake (fun _ k h => step_wake k h) h
+  have hnl : s.looping = false := hw.notLooping (by simp [hp, beforeLoop])
+  have hg := wakeGuard_notLooping true s.calling
+  have hbusy : busy s = true := by simp [busy, hl]
+  refine ⟨hnl, ?_⟩
+  unfold stepLoop stepLoopFD stepLoopG
+  simp only [hp, hbusy, if_true]
+  unfold runTop
+  simp [hl, hnl, hg]
+
+/-- the step that starts the next segment: taken from `returned` in the plain scenario when the owner's program goes
+on; it leaves the loop object as it is (queue, eventfd, flags) and `looping_` is false -/
+theorem relaunch_keeps_loop_state (s : St) (h : Reachable s) (seg : List Sub) (rest : List (List Sub))
+    (hp : s.phase = .returned) (he : s.elt = false) (ha : s.again = seg :: rest) :
+    (stepLoop s).phase = .pre ∧ (stepLoop s).again = rest ∧ (stepLoop s).pending = s.pending ∧
+    (stepLoop s).ev = s.ev ∧ (stepLoop s).executed = s.executed ∧ (stepLoop s).appendOrder = s.appendOrder ∧
+    (stepLoop s).quit = s.quit ∧ (stepLoop s).looping = false ∧ (stepLoop s).out = none := by
+  have hw := reachable_invariant (P := WakeInv) init_wake (fun _ k h => step_wake k h) h
+  have hnl : s.looping = false := hw.notLooping (by simp [hp, beforeLoop])
+  unfold stepLoop stepLoopFD stepLoopG
+  simp [hp, he, ha, relaunch, hnl]
 
 /-! ## as long as the loop keeps running — and when it stops -/
 
@@ -293,7 +339,7 @@ theorem drain_on_exit (s : St) (h : Reachable s) (hp : s.phase = .returned ∨ s
     ∃ m n, s.retMark = some m ∧ s.quitMark = some n ∧ n ≤ m ∧
       s.executed = s.appendOrder.take m ∧ s.pending = s.appendOrder.drop m ∧ s.batch = [] := by
   have hx := reachable_invariant (P := fun s => FifoInv s ∧ ExitInv s)
-    (fun a b c d e f => ⟨init_fifo a b c d e f, init_exit a b c d e f⟩) (fun _ k h => step_exit k h) h
+    (fun a b c d e f g => ⟨init_fifo a b c d e f g, init_exit a b c d e f g⟩) (fun _ k h => step_exit k h) h
   have hex : exited s.phase = true := by rcases hp with h | h <;> simp [h, exited]
   obtain ⟨n, hn, hle⟩ := hx.2.done hex
   have hb : s.batch = [] := hx.1.batchNil (by rcases hp with h | h <;> simp [h])
@@ -305,7 +351,7 @@ theorem drain_on_exit (s : St) (h : Reachable s) (hp : s.phase = .returned ∨ s
 6f04cfe): the owner queues task 1 and calls `quit()` before `loop()`; task 1, run by the final drain, queues task 2.
 With a single final drain `loop()` returns with task 2 queued and never run; the code as it is runs both. -/
 theorem drain_once_strands_witness :
-    let i := init false false (fun t => if t = 1 then [.queue 2] else []) (fun _ => []) [.queue 1, .quit] (fun _ => [])
+    let i := init false false (fun t => if t = 1 then [.queue 2] else []) (fun _ => []) [.queue 1, .quit] [] (fun _ => [])
     let sched := List.replicate 24 0
     ((runFD .once i sched).phase = .returned ∧ (runFD .once i sched).pending = [2] ∧
       (runFD .once i sched).executed = [1]) ∧
@@ -315,7 +361,7 @@ theorem drain_once_strands_witness :
 /-- … and for the shape before 8a53a2a (no drain after the `while`): a functor queued behind the iteration's swap
 and followed by `quit()` is never run -/
 theorem drain_none_strands_witness :
-    let i := init false false (fun _ => []) (fun _ => []) [.queue 1, .quit] (fun _ => [])
+    let i := init false false (fun _ => []) (fun _ => []) [.queue 1, .quit] [] (fun _ => [])
     let sched := List.replicate 12 0
     ((runFD .none i sched).phase = .returned ∧ (runFD .none i sched).pending = [1]) ∧
     ((run i sched).phase = .returned ∧ (run i sched).pending = [] ∧ (run i sched).executed = [1]) := by
@@ -327,7 +373,7 @@ that always queues itself again keeps `loop()` from returning after `quit()` —
 file and of C05 about `loop()` *returning* is therefore a statement about states (`phase = returned`), not a
 promise that such a state is reached; it is reached whenever the functors eventually stop queueing. -/
 theorem requeue_forever_never_returns_witness :
-    let s := run (init false false (fun t => if t = 1 then [.queue 1] else []) (fun _ => []) [.queue 1, .quit] (fun _ => []))
+    let s := run (init false false (fun t => if t = 1 then [.queue 1] else []) (fun _ => []) [.queue 1, .quit] [] (fun _ => []))
                  (List.replicate 200 0)
     s.final = true ∧ s.phase ≠ .returned ∧ s.qreq = true ∧ 20 ≤ s.executed.length := by
   decide +kernel
@@ -338,7 +384,7 @@ theorem requeue_forever_never_returns_witness :
 a foreign thread queues task 2 and then quits; under this schedule all three run, in submission order, and
 `loop()` returns -/
 example :
-    let s := run (init false false (fun t => if t = 1 then [.queue 3] else []) (fun _ => []) [.queue 1]
+    let s := run (init false false (fun t => if t = 1 then [.queue 3] else []) (fun _ => []) [.queue 1] []
                     (fun k => if k = 1 then [.queue 2, .quit] else []))
                  [0, 0, 0, 0, 1, 1, 0, 0, 0, 0, 0, 0, 0, 0, 0, 0, 0, 0, 0, 0, 0, 0, 0, 1, 1, 0, 0, 0, 0, 0, 0, 0, 0]
     s.executed = [1, 2, 3] ∧ s.appendOrder = [1, 2, 3] ∧ s.phase = .returned ∧ s.pending = [] := by
@@ -347,7 +393,7 @@ example :
 /-- the hypotheses of `no_lost_wakeup` are satisfiable: the loop in `poll`, a functor queued by a foreign thread
 that has not written the eventfd yet -/
 example :
-    let s := run (init false false (fun _ => []) (fun _ => []) [] (fun k => if k = 1 then [.queue 7] else [])) [0, 0, 1]
+    let s := run (init false false (fun _ => []) (fun _ => []) [] [] (fun k => if k = 1 then [.queue 7] else [])) [0, 0, 1]
     s.phase = .polling ∧ s.pending = [7] ∧ s.ev = 0 ∧ (s.thr 1).pc = .appended := by
   decide
 
@@ -355,10 +401,24 @@ example :
 destructor queues task 2; after the batch has run it dies, the append is made with `callingPendingFunctors_` set and the
 next step of the loop thread writes the eventfd; in the end both tasks have run -/
 example :
-    let i := init false false (fun _ => []) (fun t => if t = 1 then [.queue 2] else []) [.queue 1] (fun _ => [])
+    let i := init false false (fun _ => []) (fun t => if t = 1 then [.queue 2] else []) [.queue 1] [] (fun _ => [])
     let s := run i (List.replicate 13 0)
     s.burying = true ∧ s.lpc = .appended ∧ s.phase = .draining ∧ s.calling = true ∧ s.pending = [2] ∧ s.ev = 0 ∧
     (stepLoop s).out = some .wakeup ∧ (run i (List.replicate 30 0)).executed = [1, 2] := by
+  decide +kernel
+
+/-- two runs of `loop()`: task 1 (queued before the first call) quits the loop; after `loop()` has returned the owner
+queues task 2 — the hypotheses of `owner_queue_between_runs_wakes` hold after 20 steps, the next step writes the
+eventfd — and calls `loop()` again; task 2 runs at once and quits; `loop()` returns a second time with both run -/
+example :
+    let i := init false false (fun t => if t = 1 ∨ t = 2 then [.quit] else []) (fun _ => []) [.queue 1] [[.queue 2]]
+               (fun _ => [])
+    let s := run i (List.replicate 20 0)
+    s.phase = .pre ∧ s.lpc = .appended ∧ s.pending = [2] ∧ s.ev = 0 ∧ s.looping = false ∧ s.executed = [1] ∧
+    (stepLoop s).out = some .wakeup ∧
+    (run i (List.replicate 18 0)).phase = .returned ∧ (run i (List.replicate 18 0)).again = [[.queue 2]] ∧
+    (run i (List.replicate 40 0)).phase = .returned ∧ (run i (List.replicate 40 0)).executed = [1, 2] ∧
+    (run i (List.replicate 40 0)).again = [] := by
   decide +kernel
 
 /-! ## T1: the statement order of `EventLoop.cc` -/
